@@ -24,8 +24,21 @@ open Hertz.Driver
 
 def handlers : List Handler := [C17.handle, C17u.handle, C17x.handle, C07.handle, H1.handle, C04.handle, C05.handle, C06.handle, C08.handle, C09.handle, C10.handle, C11.handle, C12.handle, C13.handle, C14.handle, C15.handle, C16.handle, C18.handle, C19.handle, C20.handle]
 
+/-- `seg:<op> args… =REF= ref…` : one delivery of bytes whose whole (unsplit) delivery gave `ref` on the implementation.
+The inner op is handled as usual; in addition the implementation's output must equal `ref` — independence from the
+segmentation judged on the implementation's outputs alone (C02), whatever the model says. -/
 def dispatch (args impl : List String) : Option Result :=
-  handlers.firstM (fun h => h args impl)
+  match args with
+  | op :: rest =>
+    if op.startsWith "seg:" then
+      let inner := rest.takeWhile (· != "=REF=")
+      let ref := (rest.dropWhile (· != "=REF=")).drop 1
+      (handlers.firstM (fun (h : Handler) => h (toString (op.drop 4) :: inner) impl)).map (fun (r : Result) =>
+        if impl == ref then { r with tag := "seg:" ++ r.tag }
+        else { r with spec := false, cls := "", tag := "seg:" ++ r.tag,
+                      specNote := "SEGMENTATION-DEPENDENT: the same bytes delivered whole gave the result after =REF= | " ++ r.specNote })
+    else handlers.firstM (fun h => h args impl)
+  | [] => none
 
 structure Stats where
   lines : Nat := 0
